@@ -12,7 +12,7 @@ RULE = (
     "(raises, failing items/futures), sync re-entry, several batch kinds; one third of the programs also share tasks "
     "between parents that override the same values differently - reads are then removed from everything reachable from a "
     "shared task (only there the sequential answer is not unique), while reads in the parents and their other children "
-    "remain. All get_priority() policies, both builds. Oracles: every read "
+    "remain. One program in five comes from a structured 'diamond' family: a pending task with its own override awaited by 2-3 parents that override the same value differently, each with a private reading child. All get_priority() policies, both builds. Oracles: every read "
     "equals the sequential reference's dynamic override stack (override values are unique per site, so a read names the "
     "override that produced it); the thread's global resume/pause sequence of logging contexts is well parenthesised; "
     "after the computation ends (value or exception) every scoped value and attribute is back at its default. "
@@ -41,7 +41,105 @@ PROFILES = [
     # shared tasks (awaited by several parents that override the same values differently); reads are then removed
     # from every node reachable from a shared task, because only there the sequential answer is not unique
     gen.profile(**dict(COMMON, p_shared=1.0, p_reuse=0.05, max_nodes=10)),
+    # the same, concentrated: one scoped value that every override fights over, small programs, many reads,
+    # synchronous waits on the shared task
+    gen.profile(
+        **dict(
+            COMMON,
+            p_shared=1.0,
+            p_syncshared=0.5,
+            p_reuse=0.0,
+            max_nodes=7,
+            max_stmts=5,
+            sv_names=["sv0"],
+            ctxs=["ov", "ov", "ov", "actx"],
+            w_stmt=dict(with_=5.0, read=5.0, raise_=0.2, try_=0.6, ret=0.2, orphan=0, sync=1.2),
+            w_leaf=dict(call=7, item=5, err=0.1, junk=0.0, lazy=0.1, again=0.2, dbg=0.0, const=0.5),
+        )
+    ),
 ]
+
+
+def diamond_program(rnd):
+    """A structured family the random generator rarely hits: one pending task S (with or without its own
+    override of X, suspended on a batch) awaited by 2-3 parents that override the SAME value differently,
+    each parent also awaiting a private child that reads X, and reading X itself afterwards."""
+    site = [0]
+
+    def st(prefix):
+        site[0] += 1
+        return "%s%d" % (prefix, site[0])
+
+    def item(kind=None):
+        site[0] += 1
+        return ["leaf", ["item", rnd.randrange(2) if kind is None else kind, "k%d" % site[0]]]
+
+    val = [200]
+
+    def ov(body, name="sv0"):
+        val[0] += 1
+        return ["with", ["ov", name, val[0]], body]
+
+    nparents = rnd.choice([2, 2, 3])
+    nodes = [None]  # root
+    # shared task S
+    s_body = [["yield", item()] for _ in range(rnd.choice([1, 1, 2]))]
+    if rnd.random() < 0.75:
+        s_body = [ov(s_body)]
+    if rnd.random() < 0.3:
+        s_body.append(["yield", item()])
+    parents = []
+    for i in range(nparents):
+        # private reader child
+        r_body = [["read", "sv0"]]
+        if rnd.random() < 0.6:
+            r_body.append(["yield", item()])
+            r_body.append(["read", "sv0"])
+        parents.append({"reader": r_body})
+    # layout: 0 root, 1..n parents, then readers, S last (higher id than everything referencing it)
+    n = nparents
+    sid_node = 1 + 2 * n
+    prog_nodes = [{"style": "asynq", "ret": "return", "body": []} for _ in range(sid_node + 1)]
+    for i in range(n):
+        pid = 1 + i
+        rid = 1 + n + i
+        prog_nodes[rid]["body"] = parents[i]["reader"]
+        members = [["leaf", ["shared", 0]], ["leaf", ["call", st("c"), rid]]]
+        if rnd.random() < 0.4:
+            members.append(item())
+        rnd.shuffle(members)
+        inner = []
+        if rnd.random() < 0.4:
+            inner.append(["read", "sv0"])
+        if rnd.random() < 0.25:
+            inner.append(["syncshared", 0])
+            inner.append(["read", "sv0"])
+            inner.append(["yield", ["leaf", ["call", st("c"), rid]]])
+        else:
+            inner.append(["yield", [rnd.choice(["list", "tuple"]), members]])
+        inner.append(["read", "sv0"])
+        body = [ov(inner)]
+        if rnd.random() < 0.5:
+            body.append(["read", "sv0"])
+        if rnd.random() < 0.3:
+            body = [ov(body, rnd.choice(["sv0", "sv1"]))]
+        prog_nodes[pid]["body"] = body
+    prog_nodes[sid_node]["body"] = s_body
+    root_members = [["leaf", ["call", st("c"), 1 + i]] for i in range(n)]
+    if rnd.random() < 0.3:
+        root_members.append(item())
+    prog_nodes[0]["body"] = [["read", "sv0"], ["yield", ["list", root_members]], ["read", "sv0"]]
+    for node in prog_nodes:
+        node["style"] = rnd.choice(["asynq", "asynq", "method", "pure", "proxy"])
+    return {
+        "nodes": prog_nodes,
+        "root": 0,
+        "shared": [sid_node],
+        "kinds": 2,
+        "faults": {},
+        "flush_faults": {},
+        "defaults": {"sv0": "dflt-sv0", "sv1": "dflt-sv1", "at0": "dflt-at0"},
+    }
 
 
 MONITORS = ("refeq", "restore", "nesting")
@@ -75,7 +173,11 @@ def run_unit(unit, progress):
     for i in range(a, b):
         progress(i)
         cs = tl.case_seed(unit["seed"], ID, i)
-        prog = gen.generate(cs, PROFILES[i % 3])
+        if i % 5 == 4:
+            prog = diamond_program(random.Random(cs))
+            inc("diamond_programs")
+        else:
+            prog = gen.generate(cs, PROFILES[i % 4])
         if prog.get("shared"):
             gen.strip_reads_under_shared(prog)
             inc("programs_with_shared_tasks")
@@ -136,7 +238,7 @@ def run_unit(unit, progress):
 
 def reach(c, tier):
     out = []
-    for k in ("reads_compared", "reads_under_an_override", "programs_with_shared_tasks", "n_nesting_events", "n_restore_checks", "computations_ending_in_exception"):
+    for k in ("reads_compared", "reads_under_an_override", "programs_with_shared_tasks", "diamond_programs", "n_nesting_events", "n_restore_checks", "computations_ending_in_exception"):
         if not c.get(k):
             out.append("%s is zero" % k)
     if c.get("max_nesting_depth", 0) < 2:
